@@ -1,7 +1,6 @@
 use std::{
-    collections::{hash_map, HashMap},
+    collections::HashMap,
     fmt::Display,
-    iter::FusedIterator,
     ops::{Add, AddAssign, Mul, MulAssign, Neg, Sub, SubAssign},
 };
 
@@ -122,9 +121,19 @@ impl<'ctx> Amount<'ctx> {
         self.values
     }
 
-    /// Returns iterator over its amount.
+    /// Returns pairs of the commodity and its value, sorted by the commodity name.
+    /// HashMap iteration order differs on every run, thus it must not leak to users.
+    fn sorted_values(&self) -> Vec<(&Commodity<'ctx>, &Decimal)> {
+        let mut vs: Vec<(&Commodity<'ctx>, &Decimal)> = self.values.iter().collect();
+        vs.sort_unstable_by_key(|(c, _)| c.as_str());
+        vs
+    }
+
+    /// Returns iterator over its amount, sorted by the commodity name.
     pub fn iter(&self) -> impl Iterator<Item = SingleAmount<'ctx>> + '_ {
-        AmountIter(self.values.iter())
+        self.sorted_values()
+            .into_iter()
+            .map(|(c, v)| SingleAmount::from_value(*v, *c))
     }
 
     /// Returns an objectt to print the amount as inline.
@@ -256,26 +265,11 @@ impl<'ctx> Amount<'ctx> {
 }
 
 #[derive(Debug)]
-struct AmountIter<'a, 'ctx>(hash_map::Iter<'a, Commodity<'ctx>, Decimal>);
-
-impl<'ctx> Iterator for AmountIter<'_, 'ctx> {
-    type Item = SingleAmount<'ctx>;
-
-    fn next(&mut self) -> Option<Self::Item> {
-        self.0.next().map(|(c, v)| SingleAmount::from_value(*v, *c))
-    }
-}
-
-impl FusedIterator for AmountIter<'_, '_> {}
-
-#[derive(Debug)]
 struct InlinePrintAmount<'a, 'ctx>(&'a Amount<'ctx>);
 
 impl Display for InlinePrintAmount<'_, '_> {
     fn fmt(&self, f: &mut std::fmt::Formatter<'_>) -> std::fmt::Result {
-        // Sorts by the commodity name, as HashMap iteration order differs on every run.
-        let mut vs: Vec<(&Commodity<'_>, &Decimal)> = self.0.values.iter().collect();
-        vs.sort_unstable_by_key(|(c, _)| c.as_str());
+        let vs = self.0.sorted_values();
         match vs.len() {
             0 | 1 => match vs.first() {
                 Some((c, v)) => write!(f, "{} {}", v, c.as_str()),
